@@ -204,7 +204,9 @@ reg(Check("C13", "model_checking",
           "(being extended) every request of the acl alphabet answered, also when any single store call fails",
           [], text=XS_NOTE, note="input product part pending", technique="explicit-state model checking + fault enumeration",
           engine="E2 xstate", claimed=False,
-          parts=[Part("acl-fault", SRV, "^TestVerifC13AclFault$", instr=True, gomaxprocs=16, deadline=(300, 2400)),
+          parts=[Part("inputs", SRV, "^TestVerifC13Inputs$", instr=True, shards=(16, 16), deadline=(300, 3000)),
+                 Part("raw", SRV, "^TestVerifC13Raw$", instr=True, shards=(16, 16), deadline=(300, 1200)),
+                 Part("acl-fault", SRV, "^TestVerifC13AclFault$", instr=True, gomaxprocs=16, deadline=(300, 2400)),
                  Part("msg-fault", SRV, "^TestVerifC13MsgFault$", instr=True, gomaxprocs=16, deadline=(300, 2400))]))
 
 MSG_RULE = ("BFS over histories of {pub by 4 users (one with forged sender header + noecho), soft/hard delete with 6 (quick) / 11 (thorough) "
